@@ -276,6 +276,9 @@ func (u *Unit) evalLV1(st *State, e ast.Expr, read bool) LV {
 			}
 			lv = lv.field(stt, fi)
 		}
+		if sel.Kind() == types.FieldVal && len(u.eng.guards) > 0 {
+			u.checkGuardedAccess(st, lv, !read, x)
+		}
 		return lv
 	case *ast.IndexExpr:
 		xt := info.TypeOf(x.X)
